@@ -15,6 +15,54 @@ type FuncCFG struct {
 	idom  []int32 // immediate dominator by block index, -1 for entry/unreachable
 	reach []bool
 	order []int32 // reverse postorder numbering
+	// boolFail: the function reports failure through a trailing bool result
+	// (`return` / `return x, false`) rather than through an error.
+	boolFail bool
+}
+
+// BuildCFGFor is BuildCFG for a declaration; it also determines how the
+// function signals failure (trailing error, or trailing bool that is only
+// ever set by `return …, true`).
+func BuildCFGFor(fd *ast.FuncDecl, info *types.Info) *FuncCFG {
+	c := BuildCFG(fd.Body, info)
+	if fd.Type.Results != nil && len(fd.Type.Results.List) > 0 {
+		last := fd.Type.Results.List[len(fd.Type.Results.List)-1]
+		if tv := info.Types[last.Type]; tv.Type != nil {
+			if b, ok := tv.Type.Underlying().(*types.Basic); ok && b.Kind() == types.Bool {
+				assigned := false
+				if len(last.Names) > 0 {
+					obj := info.Defs[last.Names[len(last.Names)-1]]
+					ast.Inspect(fd.Body, func(n ast.Node) bool {
+						if as, ok := n.(*ast.AssignStmt); ok {
+							for _, l := range as.Lhs {
+								if ObjOf(info, l) == obj {
+									assigned = true
+								}
+							}
+						}
+						return true
+					})
+				}
+				c.boolFail = !assigned
+			}
+		}
+	}
+	return c
+}
+
+// IsFailure reports whether ret definitely reports failure to the caller.
+func (c *FuncCFG) IsFailure(ret *ast.ReturnStmt) bool {
+	if c.boolFail {
+		if len(ret.Results) == 0 {
+			return true
+		}
+		last := ret.Results[len(ret.Results)-1]
+		if tv, ok := c.Info.Types[last]; ok && tv.Value != nil && tv.Value.String() == "false" {
+			return true
+		}
+		return false
+	}
+	return ReturnIsError(c.Info, ret)
 }
 
 // BuildCFG builds the control-flow graph of a function body. Calls of the
@@ -237,7 +285,7 @@ func (c *FuncCFG) AllPathsReturnError(b *cfg.Block, avoid map[*cfg.Block]bool) b
 		}
 		state[x] = 1
 		if r := BlockReturn(x); r != nil {
-			ok := len(r.Results) > 0 && !LastResultIsNil(c.Info, r)
+			ok := c.IsFailure(r)
 			if ok {
 				state[x] = 2
 			}
@@ -279,4 +327,44 @@ func (c *FuncCFG) Returns() []*ast.ReturnStmt {
 		}
 	}
 	return out
+}
+
+// CaseBodyBlock returns the entry block of a case clause's body.
+func (c *FuncCFG) CaseBodyBlock(cc *ast.CaseClause) *cfg.Block {
+	for _, b := range c.G.Blocks {
+		if b.Kind == cfg.KindSwitchCaseBody && b.Stmt == ast.Stmt(cc) {
+			return b
+		}
+	}
+	return nil
+}
+
+// SwitchDoneBlock returns the block reached when a switch statement completes.
+func (c *FuncCFG) SwitchDoneBlock(sw ast.Stmt) *cfg.Block {
+	for _, b := range c.G.Blocks {
+		if b.Kind == cfg.KindSwitchDone && b.Stmt == sw {
+			return b
+		}
+	}
+	return nil
+}
+
+// AnyPathHits explores from start without entering stop blocks and reports
+// whether some visited block contains a node satisfying pred.
+func (c *FuncCFG) AnyPathHits(start *cfg.Block, stop map[*cfg.Block]bool, pred func(ast.Node) bool) bool {
+	for b := range c.ReachableFrom(start, stop) {
+		for _, n := range b.Nodes {
+			hit := false
+			ast.Inspect(n, func(x ast.Node) bool {
+				if x != nil && pred(x) {
+					hit = true
+				}
+				return !hit
+			})
+			if hit {
+				return true
+			}
+		}
+	}
+	return false
 }
